@@ -335,6 +335,28 @@ def pRt : P String := do
     | none => pure ()
   pure out
 
+/-- `par <towers|time|both|other> <ntowers> <ntime> <nsched> sched…`: nested result labels `name:step` -/
+def pPar : P String := do
+  let st ← tok
+  let strategy := if st == "towers" then Strategy.towers else if st == "time" then Strategy.time
+    else if st == "both" then Strategy.both else Strategy.invalid
+  let nt ← pNat
+  let ntime ← pNat
+  let ns ← pNat
+  let sched ← pNats ns
+  pEnd
+  let towers : List TowerCfg := (List.range nt).map (fun k => { name := Int.ofNat (100 + k), x := 0, y := 0, zm := 0 })
+  match runParallel strategy towers ntime (fun t i => s!"{t.name}:{i}") sched with
+  | .error e => pure s!"err {errName e}"
+  | .ok res =>
+    let mut out := "ok"
+    for (name, series) in res do
+      out := out ++ s!" [{name}"
+      for x in series do
+        out := out ++ " " ++ (match x with | some l => l | none => "?")
+      out := out ++ "]"
+    pure out
+
 def pInt : P Int := do
   let t ← tok
   match t.toInt? with
@@ -495,6 +517,7 @@ def dispatch : P String := do
   else if op == "cachehist" then pCacheHist
   else if op == "single" then pSingle
   else if op == "rt" then pRt
+  else if op == "par" then pPar
   else failure
 
 def handle (line : String) : String :=
